@@ -420,6 +420,13 @@ def judge(res, pdef):
             continue
         if 'dmg=' in cmd:
             nomodel = True
+        if c == 'conc':
+            nomodel = True         # the schedule decides the outcome: the harness checks it against the recorded history
+        if c == 'cancel':
+            if impl.startswith('cancelled'):
+                nomodel = True     # the future was really dropped: the Spec oracle accepts "entirely or not at all"
+            else:
+                impl = impl.split(' polls=')[0]
         is_p = c in pdef['p_cmds']
         orc_applies = c in pdef.get('oracle_cmds', ())
         pyor = pdef.get('py_oracle')
@@ -442,7 +449,7 @@ def judge(res, pdef):
         if verdict:
             findings.append(Finding('violation', res, i, verdict))
             break
-        if c in ('dmgsweep', 'crashsweep', 'flipsweep', 'faultsweep', 'cancelsweep', 'toolsweep', 'concsweep', 'killcheck') and impl.startswith('sweep ok'):
+        if c in ('dmgsweep', 'crashsweep', 'flipsweep', 'faultsweep', 'cancelsweep', 'toolsweep', 'conc', 'killcheck') and impl.startswith('sweep ok'):
             impl = 'sweep ok'      # the count of damaged copies is reported, not compared
         impl_only = c in pdef.get('impl_only_cmds', ()) or (c in pdef.get('impl_only_if_ct', ()) and ' rt=ct' in res['script'][0])
         if impl != model and not nomodel and not impl_only and not disagreed:
